@@ -117,6 +117,36 @@ def ob_nonentries(k, timeout):
               canaries=[{"target": "praatio.data_classes.interval_tier:IntervalTier.getNonEntries", "find": "if interval.start < interval.end", "replace": "if interval.start <= interval.end"}] if k == 2 else [])
 
 
+def ob_timestamps_after_edit(timeout):
+    """derived views after in-place edits: timestamps / getNonEntries / find of an edited
+    tier equal those of an equal freshly constructed tier (no state carried over)"""
+    names = ["hi", "s0", "e0", "s1", "e1", "ns", "ne"]
+
+    def pre(hi, s0, e0, s1, e1, ns, ne):
+        return ivs_wf_pre(0.0, hi, s0, e0, s1, e1) & (hi <= 512.0) & (0.0 <= ns) & (ns < ne) & (ne <= hi) & sep(0.0, hi, s0, e0, s1, e1, ns, ne)
+
+    def body(hi, s0, e0, s1, e1, ns, ne):
+        t = IntervalTier("t", [Interval(s0, e0, "x"), Interval(s1, e1, "y")], 0.0, hi)
+        t.timestamps
+        t.getNonEntries()
+        t.deleteEntry(t.entries[0])
+        f = IntervalTier("t", [Interval(*e) for e in t.entries], 0.0, hi)
+        if t.timestamps != f.timestamps or tuples(t.getNonEntries()) != tuples(f.getNonEntries()):
+            return "stale view after deleteEntry"
+        t.insertEntry(Interval(ns, ne, "n"), "merge", "silence")
+        f = IntervalTier("t", [Interval(*e) for e in t.entries], t.minTimestamp, t.maxTimestamp)
+        if t.timestamps != f.timestamps or tuples(t.getNonEntries()) != tuples(f.getNonEntries()) or t.find("n") != f.find("n"):
+            return "stale view after insertEntry"
+        p = PointTier("p", [Point(s0, "x"), Point(s1, "y")], 0.0, hi)
+        p.timestamps
+        p.deleteEntry(p.entries[1])
+        if p.timestamps != [s0]:
+            return "stale point-tier timestamps after deleteEntry"
+        return True
+
+    return Ob("views-after-edit", F(*names), body, pre, fmode="real", timeout=timeout, funcs=FUNCS[1:3] + ["IntervalTier.deleteEntry/insertEntry"], bounds="2 intervals; read views, delete, read, insert (merge), read")
+
+
 def ob_timestamps(k, timeout):
     names = ["hi"] + _ts(k)
 
@@ -330,6 +360,12 @@ def ob_eq(timeout):
             return "textgrid equality blind to a tier change"
         if g0 == "x" or base == 3:
             return "equal to a non-tier"
+        # tiers of different type without entries, same name and span
+        ei, ep = IntervalTier("e", [], 1.0, hi), PointTier("e", [], 1.0, hi)
+        if ei == ep or ep == ei:
+            return "empty interval tier equals empty point tier"
+        if tg(ei, p2) == tg(ep, p2):
+            return "textgrid equality blind to the type of an empty tier"
         return True
 
     return Ob("equality", F(*names), body, pre, fmode="real", timeout=timeout, funcs=FUNCS[7:8], bounds="2-interval tiers on [1,512]; single-field perturbations with |d| >= 2^-10")
@@ -395,6 +431,7 @@ def obligations(tier):
             obs.append(ob_find_re(p, 2, 200))
         obs.append(ob_nonentries(2, 120))
         obs.append(ob_timestamps(2, 120))
+        obs.append(ob_timestamps_after_edit(300))
         obs.append(ob_values_in_intervals(2, 2, 200))
         obs.append(ob_values_at_points(2, 3, False, 200))
         obs.append(ob_values_at_points(2, 3, True, 200))
@@ -429,6 +466,7 @@ def obligations(tier):
                 obs.append(ob_invert(k, bk, 900))
         obs.append(ob_invert_malformed(60))
         obs.append(ob_eq(1200))
+        obs.append(ob_timestamps_after_edit(1800))
         obs.append(ob_validate_tier(1200))
         obs.append(ob_validate_tg(600))
     return obs
